@@ -214,8 +214,23 @@ func Check(res *Result) *ReadBack {
 		if meta.Info != nil && (meta.Info.Title != "" || meta.Info.Author != "") {
 			fail("info", "Info appears from nowhere: %+v", meta.Info)
 		}
-	} else if meta.Info == nil || meta.Info.Title != res.Info.Title || meta.Info.Author != res.Info.Author {
-		fail("info", "Info reads %+v, written %+v", meta.Info, res.Info)
+	} else if meta.Info == nil {
+		fail("info", "Info reads nil, written %+v", res.Info)
+	} else {
+		cmp := func(field string, got, want pdf.TextString) {
+			if got != want {
+				fail("info", "Info.%s reads %+q, written %+q", field, string(got), string(want))
+			}
+		}
+		cmp("Title", meta.Info.Title, res.Info.Title)
+		cmp("Author", meta.Info.Author, res.Info.Author)
+		cmp("Subject", meta.Info.Subject, res.Info.Subject)
+		cmp("Keywords", meta.Info.Keywords, res.Info.Keywords)
+		cmp("Creator", meta.Info.Creator, res.Info.Creator)
+		cmp("Producer", meta.Info.Producer, res.Info.Producer)
+		for k, v := range res.Info.Custom {
+			cmp("Custom["+k+"]", pdf.TextString(meta.Info.Custom[k]), pdf.TextString(v))
+		}
 	}
 	rb.Root, _ = meta.Trailer["Root"].(pdf.Reference)
 	rb.InfoRef, _ = meta.Trailer["Info"].(pdf.Reference)
